@@ -24,7 +24,7 @@ VARIANTS = [
     ("bed12", None, {}), ("bed12", None, {"trailing_comma": True}), ("bdg", None, {}), ("narrowpeak", None, {}), ("sizes", None, {}), ("gfa", None, {}),
     ("pairs", None, {}), ("gtf", None, {"comments": True}), ("gff3", None, {"comments": True}), ("wig", None, {"comments": True}),
     ("vcf", None, {}), ("vcf_noinfo", None, {}), ("vcf_noinfo", "VCFWithInfoAsStringBuffer", {}), ("vcf_gt", None, {}),
-    ("vcf_gt", "VCFMatrixBuffer", {}), ("vcf_gt", "VCFBuffer2", {}), ("vcf_phased", "PhasedVCFMatrixBuffer", {}), ("vcf_phased", "PhasedHaplotypeVCFMatrixBuffer", {}),
+    ("vcf_gt", "VCFMatrixBuffer", {}), ("vcf_gt", "VCFBuffer2", {}), ("vcf_gt", "VCFBuffer2", {"rich_format": True}), ("vcf_gt", "VCFMatrixBuffer", {"rich_format": True}), ("vcf_phased", "PhasedVCFMatrixBuffer", {}), ("vcf_phased", "PhasedHaplotypeVCFMatrixBuffer", {}),
     ("sam", None, {}), ("sam", None, {"tags": False}),
 ]
 
